@@ -87,6 +87,35 @@ def long_digest(prop, tier, seed, res):
     res.coverage["evaluations"] += sum(x["frames"] for x in summ["samples"])
 
 
+def tlaps_lemmas(res):
+    """spec/ArithLemmas.tla: the scalar arithmetic lemmas of the format (zig-zag fold, mid/side, two's complement,
+    Rice split) for ALL integers, checked by the TLA+ proof system (tlapm, SMT back end).  Schemes.tla checks the
+    same statements with TLC over finite ranges."""
+    import shutil, subprocess
+    d = os.path.join(vlib.WORK, "tlaps")
+    os.makedirs(d, exist_ok=True)
+    shutil.copy(os.path.join(vlib.SPEC, "ArithLemmas.tla"), d)
+    try:
+        p = subprocess.run(["timeout", "600", "tlapm", "--threads", "8", "ArithLemmas.tla"], cwd=d, stdout=subprocess.PIPE,
+                           stderr=subprocess.STDOUT, text=True)
+    except FileNotFoundError:
+        res.coverage["tlaps_proved_obligations"] = 0
+        res.coverage["tlaps_note"] = "tlapm not found - lemmas not re-proved in this run (they do not depend on the code under test)"
+        return
+    m = re.search(r"All (\d+) obligations proved", p.stdout)
+    if not m:
+        # the lemmas are about the format's arithmetic, not about the code under test: a proof-tool problem is
+        # recorded, it does not decide the property
+        open(os.path.join(vlib.WORK, "tlapm_error.txt"), "w").write(p.stdout)
+        log("tlapm did not prove spec/ArithLemmas.tla; output in .work/tlapm_error.txt")
+        res.coverage["tlaps_proved_obligations"] = 0
+        res.coverage["tlaps_note"] = "tlapm run failed - see .work/tlapm_error.txt"
+        return
+    res.coverage["tlaps_proved_obligations"] = int(m.group(1))
+    res.coverage["tlaps_theorems"] = ["FoldNat", "UnfoldFold", "FoldUnfold", "MidSideInvertible", "TwoComplement", "RiceSplit",
+                                      "LeftSideInvertible", "RightSideInvertible"]
+
+
 def seq_protocol_conformance(tier, seed, res):
     """EncoderSeq.tla bound to the code through what a user-written Source observes: the sequence of read_samples
     calls and the result (TraceSeq.tla).  Conformance of the call protocol, not a listed property: a trace the
@@ -184,6 +213,8 @@ def check_stream(prop, tier, seed, only=None, outdir=None, props=None, accept=No
         subframe_kinds_and_channel_assignments_seen=summary["kinds"], outcomes=summary["outcomes"],
         samples=summary["samples"],
         checker_cmd="tlc -workers 1 -config TraceStream.cfg TraceStream.tla (one JVM per NDJSON shard, env TRACE)")
+    if prop == "C01" and not only and props is None:
+        tlaps_lemmas(res)
     if prop == "C09" and not only and props is None:
         choice_conformance(tier, seed, res)
     if prop in ("C04", "C08") and not only and props is None:
